@@ -178,7 +178,7 @@ package p2p
 //@ func (*session).doRequest(s, ctx, stat, req, headers)
 //@   props C05, C18
 //@   requires reqInRange(req) && sessFrom + sessAmount <= MaxUint64 && !s.from.IsZero()
-//@   modifies $now, header.VerifyError.SoftFailure
+//@   modifies $now, header.VerifyError.SoftFailure, elems(int), F_conngater_BasicConnectionGater_RWMutex, F_conngater_BasicConnectionGater_blockedAddrs, F_conngater_BasicConnectionGater_blockedPeers, F_conngater_BasicConnectionGater_blockedSubnets, F_conngater_BasicConnectionGater_ds, F_p2p_peerStat_RWMutex, F_p2p_peerStat_peerID, F_p2p_peerStat_peerScore, F_p2p_peerStat_pruneDeadline
 //@   ensures [C18] at-most-one-chunk: sent("(*session).doRequest.headers") <= old(sent("(*session).doRequest.headers")) + 1
 //@   ensures [C18] at-most-one-requeue: sent("session.reqCh") <= old(sent("session.reqCh")) + 1
 
